@@ -535,6 +535,10 @@ func (e *Engine) cutLoopEntry(fr *Frame, h *ssa.BasicBlock, ord int, lc *LoopCon
 	pre := st.clone()
 	e.curLoopState = st
 	e.setIdx(fr, h)
+	// termination: a loop that is not a range over a collection needs a decreases clause
+	if fr.top && !isRangeLoop(h) && (lc == nil || (lc.Decreases == nil && !lc.Forever)) {
+		e.oblige("dec", "dec.missing@"+name, "this loop is not a range over a collection and carries no decreases clause: nothing shows that it terminates", reach, False, nil)
+	}
 	// 1. invariants hold on entry
 	if lc != nil {
 		for i, inv := range lc.Invariants {
@@ -692,6 +696,27 @@ func (e *Engine) cutLoopEntry(fr *Frame, h *ssa.BasicBlock, ord int, lc *LoopCon
 }
 
 // setIdx binds "$idx" to the hidden index of a range loop (the integer phi of the header).
+// isRangeLoop: the loop header belongs to a range over a slice/array/int (index cell) or over a map/string (Next).
+func isRangeLoop(h *ssa.BasicBlock) bool {
+	if rangeIndexAlloc(h) != nil {
+		return true
+	}
+	for _, in := range h.Instrs {
+		if _, ok := in.(*ssa.Next); ok {
+			return true
+		}
+	}
+	// the index cell may also be loaded/compared in the header without being stored there
+	for _, in := range h.Instrs {
+		if u, ok := in.(*ssa.UnOp); ok {
+			if a, ok := u.X.(*ssa.Alloc); ok && a.Comment == "rangeindex" {
+				return true
+			}
+		}
+	}
+	return false
+}
+
 func rangeIndexAlloc(h *ssa.BasicBlock) *ssa.Alloc {
 	for _, in := range h.Instrs {
 		if st, ok := in.(*ssa.Store); ok {
